@@ -37,27 +37,37 @@ def decChars : List Char → List Char
 def dec (s : String) : String := if s == "%" then "" else String.ofList (decChars s.toList)
 
 structure QSt where
-  cfgTok : String
+  cfgTok : String                 -- the token in force (changed by `reload` ops)
   secrets : List String
+  old : List String := []         -- tokens that were configured earlier in the case (monitor only)
+  reloads : Nat := 0              -- number of reloads so far (monitor only)
 
 def qInit (args : List String) : QSt :=
   { cfgTok := dec ((kv args "cfgtok").getD "%")
     secrets := (((kv args "secrets").getD "").splitOn ",").filter (· ≠ "") |>.map dec }
 
+def parseReload (op : List String) : Option String :=
+  match op with
+  | "reload" :: rest => (kv rest "tok").map dec
+  | _ => none
+
 structure QReq where
   tmpl : String
+  via : String
   present : Bool
   vals : List String
 
 def parseQ (op : List String) : Option QReq :=
   match op with
   | "q" :: rest =>
+    let via := (kv rest "via").getD "router"
+    if via != "router" && via != "mw" then none else
     match kv rest "tmpl", kv rest "hdr", kv rest "tok", kv rest "tok2" with
     | some t, some h, some a, some b =>
       match h with
-      | "none" => some { tmpl := t, present := false, vals := [] }
-      | "one" => some { tmpl := t, present := true, vals := [dec a] }
-      | "two" => some { tmpl := t, present := true, vals := [dec a, dec b] }
+      | "none" => some { tmpl := t, via := via, present := false, vals := [] }
+      | "one" => some { tmpl := t, via := via, present := true, vals := [dec a] }
+      | "two" => some { tmpl := t, via := via, present := true, vals := [dec a, dec b] }
       | _ => none
     | _, _, _, _ => none
   | _ => none
@@ -66,10 +76,15 @@ def respStr : Resp → String
   | .data => "class=data"
   | .error st body => s!"class=error st={st} body={enc body}"
 
+/-- model step (`Refinery.Model.QueryAuth.step`): a reload changes the token in force, a request is
+answered against the token in force — through the router and through a kept middleware instance alike -/
 def qStep (s : QSt) (op : List String) (_ : List (List String)) : QSt × Option String :=
-  match parseQ op with
-  | none => (s, some "bad-op")
-  | some r => (s, some (respStr (respond s.cfgTok r.vals)))
+  match parseReload op with
+  | some tok => ({ s with cfgTok := (step s.cfgTok (.reload tok)).1 }, none)
+  | none =>
+    match parseQ op with
+    | none => (s, some "bad-op")
+    | some r => (s, (step s.cfgTok (.request r.vals)).2.map respStr)
 
 def containsSub (hay needle : String) : Bool :=
   needle != "" && (hay.splitOn needle).length > 1
@@ -96,23 +111,38 @@ none of the case's secrets (shard addresses, rule and config markers), not the c
 (beyond an echo of the request's own token; checked for tokens of 8+ characters), and is identical
 under a different configured token (`ni`). -/
 def qMon (s : QSt) (op : List String) (exts : List (List String)) (obs : Option String) : QSt × List Fail :=
+  match parseReload op with
+  | some tok => ({ s with cfgTok := tok, reloads := s.reloads + 1, old := if s.cfgTok == "" then s.old else s.cfgTok :: s.old }, [])
+  | none =>
   match parseQ op, obs with
   | some r, some o =>
+    -- the property is observed at the /query/* responses of the real router; requests served by the
+    -- kept middleware instance (`via=mw`) are compared with the model only (a divergence there is a
+    -- broken correspondence obligation, not a failing input of the property)
+    if r.via != "router" then (s, []) else
     let toks := o.splitOn " "
     let cls := (kv toks "class").getD "?"
     let body := dec ((kv toks "body").getD "%")
     let authorised := s.cfgTok != "" && r.vals.headD "" == s.cfgTok
     let tc := tokClass s.cfgTok r
+    let reloaded := s.reloads > 0
     let mk (sig what : String) : Fail := { prop := "C25", sig := sig, what := what }
     let fails :=
       if authorised then
         if cls != "data" then
-          [mk s!"C25:valid-token-refused:tmpl={r.tmpl}" s!"request with exactly the configured token answered {o.take 60}"]
+          if reloaded then
+            [mk s!"C25:valid-token-refused:after-reload:via={r.via}:tmpl={r.tmpl}" s!"after a reload, a request with exactly the token now configured is answered {o.take 60}"]
+          else
+            [mk s!"C25:valid-token-refused:tmpl={r.tmpl}" s!"request with exactly the configured token answered {o.take 60}"]
         else []
       else if cls == "data" then
         let n := exts.findSome? fun e => match e with
           | ["secrets", _, "=", v] => some v
           | _ => none
+        if reloaded && s.old.contains (r.vals.headD "") then
+          [mk s!"C25:data-with-stale-token:via={r.via}:tmpl={r.tmpl}:now={if s.cfgTok == "" then "unconfigured" else "other-token"}"
+            s!"a token that was configured before the reload still unlocks the endpoint ({n.getD "?"} of the case's secrets in the body)"]
+        else
         [mk s!"C25:data-without-valid-token:tmpl={r.tmpl}:tok={if s.cfgTok == "" then "unconfigured" else tc}"
           s!"route answered with data ({n.getD "?"} of the case's secrets in the body) although the request does not carry the configured token"]
       else if cls != "error" then
